@@ -33,9 +33,17 @@ static void state_out(void) {
 	vh_int("seeded", (long)ctx->seeded);
 }
 
+static int last_err;
+static int notry;      /* gen_notry: the request is made outside any RLC_TRY block (a refusal then only sets the code) */
 void __wrap_rand_bytes(uint8_t *buf, size_t size) {
 	int err;
 	if (!logging) { __real_rand_bytes(buf, size); return; }
+	if (notry) {
+		(void)vh_code();
+		__real_rand_bytes(buf, size);
+		err = vh_code() ? ERR_NO_VALID : 0;
+		last_err = err;
+	} else
 	VH_TRY(err, __real_rand_bytes(buf, size));
 	vh_begin("gen");
 	vh_int("len", (long)size);
@@ -43,7 +51,7 @@ void __wrap_rand_bytes(uint8_t *buf, size_t size) {
 	state_out();
 	vh_int("err", err);
 	vh_end();
-	if (err) { RLC_THROW(ERR_NO_VALID); }
+	if (err && !notry) { RLC_THROW(ERR_NO_VALID); }
 }
 
 int main(int argc, char **argv) {
@@ -68,6 +76,15 @@ int main(int argc, char **argv) {
 			vh_bytes("data", buf, n);
 			state_out();
 			vh_int("err", err); vh_int("code", vh_code());
+			vh_end();
+		} else if (strcmp(op, "gen_notry") == 0) {
+			size_t n = (size_t)atol(vh_tok[1]);
+			notry = 1; err = 0;
+			rand_bytes(buf, n);                    /* outside any block; the wrapper logs the gen event */
+			notry = 0;
+			err = last_err;
+			vh_begin("genret");
+			vh_int("len", (long)n); vh_int("err", err); vh_int("code", err ? 1 : 0);     /* (the wrapper read the code) */
 			vh_end();
 		} else if (strcmp(op, "gen") == 0) {
 			size_t n = (size_t)atol(vh_tok[1]);
